@@ -281,8 +281,14 @@ Manifest decode_manifest(const std::string& uri) {
     std::copy_n(payload.begin() + offset, manifest.nonce.bytes.size(), manifest.nonce.bytes.begin());
     offset += manifest.nonce.bytes.size();
 
-    const auto expires = read_u64(payload, offset);
+    const auto expires = static_cast<std::int64_t>(read_u64(payload, offset));
     offset += 8;
+    // The clock counts in a finer period than seconds: refuse values whose conversion would overflow.
+    constexpr std::int64_t kMaxExpirySeconds =
+        std::chrono::duration_cast<std::chrono::seconds>(std::chrono::system_clock::duration::max()).count();
+    if (expires > kMaxExpirySeconds || expires < -kMaxExpirySeconds) {
+        throw std::invalid_argument("manifest expiry out of range");
+    }
     manifest.expires_at = std::chrono::system_clock::time_point{std::chrono::seconds{expires}};
 
     manifest.threshold = payload[offset++];
